@@ -82,6 +82,7 @@ func init() {
 
 		// ---- 1. library sessions
 		nSess := 300 * c.Scale
+		bigLeft := 6
 		for i := 0; i < nSess; i++ {
 			r := c.R.Fork()
 			kind := uint64(pick(r, []int{0, 0, 0, 1, 1, 2, 3, 4, 4, 5}))
@@ -90,11 +91,19 @@ func init() {
 				o.v1 = true
 			}
 			g := genOpts{identity: true, maxData: 60}
-			if r.Chance(30) {
+			boundary := r.Chance(20)
+			if boundary {
 				g.maxData = 0 // section lengths on the varint width boundaries (127/128, 16383/16384)
-				g.big = c.Thorough && r.Chance(15)
+				if c.Thorough && bigLeft > 0 && r.Chance(10) {
+					g.big = true // 2^21 boundary (a handful of sessions: each block is 2 MiB)
+					bigLeft--
+					c.Count("session:with-2^21-boundary-blocks")
+				}
 			}
 			alpha := genBlocks(r, 2+r.Intn(6), g)
+			if g.big {
+				alpha = alpha[:2]
+			}
 			if r.Chance(40) {
 				d := r.Bytes(80) // identity CID longer than a small MaxIndexCidSize
 				alpha = append(alpha, Blk{mkCid(1, 0x55, 0x00, -1, d), d})
@@ -105,8 +114,24 @@ func init() {
 				alpha = append(alpha, Blk{b.Cid, append([]byte("x"), b.Data...)})
 				c.Count("session:with-hash-mismatch")
 			}
+			manyDups := !boundary && r.Chance(8)
+			if manyDups {
+				// long runs of equal digests in one index bucket (sort.Sort on the flattened index must keep them)
+				o.dups = true
+				alpha = alpha[:2]
+				c.Count("session:many-duplicates")
+			}
 			roots := genFinalRoots(r, alpha)
 			nput := pick(r, []int{0, 0, 1, 2, 3, 5, 8, 12, 20})
+			if boundary && nput > 5 {
+				nput = 5
+			}
+			if g.big && nput > 2 {
+				nput = 2
+			}
+			if manyDups {
+				nput = 25 + r.Intn(20)
+			}
 			if kind >= 4 && nput == 0 {
 				nput = 1 // the deferred writer creates nothing before the first Put
 			}
